@@ -659,23 +659,30 @@ Section ChooseProofs.
   Variable e : env.
   Variable v : pyval.
 
-  Definition vrec (c : schema) : Prop := val c v = Ok true /\ is_rec (kind_of e c) = true.   (* a validating record branch *)
-  Definition skipped (c : schema) : Prop := val c v = Ok false \/ vrec c.       (* what the loop passes over without stopping *)
-  Definition nodbl (c : schema) : Prop := is_double c = false.
+  Definition pass (c : schema) : bool := hint_pass e v c.        (* not excluded by a "-type" entry of the datum *)
+  Definition vrec (c : schema) : Prop :=                         (* a validating record branch the search considers *)
+    pass c = true /\ val c v = Ok true /\ is_rec (kind_of e c) = true.
+  Definition skipped (c : schema) : Prop :=                      (* what the loop passes over without stopping *)
+    pass c = false \/ val c v = Ok false \/ vrec c.
+  Definition nodbl (c : schema) : Prop := pass c = false \/ is_double c = false.
   Notation sh := (shared_of e v).
 
   (* after a validating float branch only a "double" branch can still win *)
   Lemma choose_cbf bs : forall i best most j, choose val e v bs i best most true = Ok j ->
     (j = best /\ Forall nodbl bs) \/
-    (exists pre d post, bs = pre ++ d :: post /\ Forall nodbl pre /\ is_double d = true /\ j = i + len pre).
+    (exists pre d post, bs = pre ++ d :: post /\ Forall nodbl pre /\ pass d = true /\ is_double d = true /\ j = i + len pre).
   Proof.
     induction bs as [|c bs IH]; intros i best most j H; cbn [choose] in H.
     - injection H as <-. left. split; [reflexivity|constructor].
-    - destruct (is_double c) eqn:Ed.
-      + injection H as <-. right. exists [], c, bs. repeat split; [constructor|exact Ed|]. change (len (@nil schema)) with 0. lia.
-      + destruct (IH _ _ _ _ H) as [[-> Hf]|(pre & d & post & -> & Hp & Hd & ->)].
-        * left. split; [reflexivity|constructor; assumption].
-        * right. exists (c :: pre), d, post. repeat split; [constructor; assumption|exact Hd|]. rewrite len_cons. lia.
+    - fold (pass c) in H. destruct (pass c) eqn:Ep; cbn [negb] in H.
+      + destruct (is_double c) eqn:Ed.
+        * injection H as <-. right. exists [], c, bs. repeat split; [constructor|exact Ep|exact Ed|]. change (len (@nil schema)) with 0. lia.
+        * destruct (IH _ _ _ _ H) as [[-> Hf]|(pre & d & post & -> & Hp & Hpd & Hd & ->)].
+          -- left. split; [reflexivity|constructor; [right; exact Ed|assumption]].
+          -- right. exists (c :: pre), d, post. repeat split; [constructor; [right; exact Ed|assumption]|exact Hpd|exact Hd|]. rewrite len_cons. lia.
+      + destruct (IH _ _ _ _ H) as [[-> Hf]|(pre & d & post & -> & Hp & Hpd & Hd & ->)].
+        * left. split; [reflexivity|constructor; [left; exact Ep|assumption]].
+        * right. exists (c :: pre), d, post. repeat split; [constructor; [left; exact Ep|assumption]|exact Hpd|exact Hd|]. rewrite len_cons. lia.
   Qed.
 
   (* the record part of the search: best index so far / its number of shared field names *)
@@ -689,7 +696,8 @@ Section ChooseProofs.
   Proof.
     intros Hc [[-> Hall]|(pre & c' & post & -> & -> & Hv & Hm & Hpre & Hpost)].
     - left. split; [reflexivity|]. intros d [<-|Hd]; [exact Hc|apply Hall; exact Hd].
-    - right. exists (c :: pre), c', post. rewrite len_cons. repeat split; try assumption; [lia|apply Hv|apply Hv|].
+    - right. exists (c :: pre), c', post. rewrite len_cons. split; [reflexivity|]. split; [lia|]. split; [exact Hv|].
+      split; [exact Hm|]. split; [|exact Hpost].
       intros d [<-|Hd] Hvd; [specialize (Hc Hvd); lia|apply Hpre; assumption].
   Qed.
 
@@ -697,65 +705,76 @@ Section ChooseProofs.
     vrec c -> most < sh c -> rec_best bs (i + 1) i (sh c) j -> rec_best (c :: bs) i best most j.
   Proof.
     intros Hvc Hm [[-> Hall]|(pre & c' & post & -> & -> & Hv & Hm' & Hpre & Hpost)]; right.
-    - exists [], c, bs. change (len (@nil schema)) with 0. repeat split; try assumption; [lia|apply Hvc|apply Hvc|].
-      intros d [].
-    - exists (c :: pre), c', post. rewrite len_cons. repeat split; try assumption; [lia|apply Hv|apply Hv|lia|].
+    - exists [], c, bs. change (len (@nil schema)) with 0. split; [reflexivity|]. split; [lia|]. split; [exact Hvc|].
+      split; [exact Hm|]. split; [intros d []|exact Hall].
+    - exists (c :: pre), c', post. rewrite len_cons. split; [reflexivity|]. split; [lia|]. split; [exact Hv|].
+      split; [lia|]. split; [|exact Hpost].
       intros d [<-|Hd] Hvd; [lia|apply Hpre; assumption].
   Qed.
 
   Definition stop_at (bs : list schema) (i j : Z) : Prop :=
-    exists pre c post, bs = pre ++ c :: post /\ Forall skipped pre /\ val c v = Ok true /\ is_rec (kind_of e c) = false /\
+    exists pre c post, bs = pre ++ c :: post /\ Forall skipped pre /\ pass c = true /\ val c v = Ok true /\
+      is_rec (kind_of e c) = false /\
       ((is_flt (kind_of e c) = false /\ j = i + len pre) \/
        (is_flt (kind_of e c) = true /\
         ((Forall nodbl post /\ j = i + len pre) \/
-         (exists p2 d q2, post = p2 ++ d :: q2 /\ Forall nodbl p2 /\ is_double d = true /\ j = i + len pre + 1 + len p2)))).
+         (exists p2 d q2, post = p2 ++ d :: q2 /\ Forall nodbl p2 /\ pass d = true /\ is_double d = true /\
+                          j = i + len pre + 1 + len p2)))).
 
   Lemma stop_at_cons c bs i j : skipped c -> stop_at bs (i + 1) j -> stop_at (c :: bs) i j.
   Proof.
-    intros Hc (pre & c0 & post & -> & Hp & Hv & Hr & Hcase). exists (c :: pre), c0, post. rewrite len_cons.
-    repeat split; [constructor; assumption|exact Hv|exact Hr|].
-    destruct Hcase as [[Hf ->]|[Hf [[Hn ->]|(p2 & d & q2 & -> & Hn & Hd & ->)]]].
+    intros Hc (pre & c0 & post & -> & Hp & Hpc & Hv & Hr & Hcase). exists (c :: pre), c0, post. rewrite len_cons.
+    split; [reflexivity|]. split; [constructor; assumption|]. split; [exact Hpc|]. split; [exact Hv|]. split; [exact Hr|].
+    destruct Hcase as [[Hf ->]|[Hf [[Hn ->]|(p2 & d & q2 & -> & Hn & Hpd & Hd & ->)]]].
     - left. split; [exact Hf|lia].
     - right. split; [exact Hf|]. left. split; [exact Hn|lia].
     - right. split; [exact Hf|]. right. exists p2, d, q2. repeat split; try assumption. lia.
   Qed.
 
-  (** the master statement: either no non-record branch validates and the result is the best record (or [best]),
-      or the search stops at the first validating non-record branch -- deferring from "float" to a later "double" *)
+  (** the master statement: either no (considered) non-record branch validates and the result is the best record
+      (or [best]), or the search stops at the first validating non-record branch -- deferring from "float" to a later
+      "double".  Branches excluded by a "-type" entry of the datum are passed over. *)
   Theorem choose_spec bs : forall i best most j, choose val e v bs i best most false = Ok j ->
     (Forall skipped bs /\ rec_best bs i best most j) \/ stop_at bs i j.
   Proof.
     induction bs as [|c bs IH]; intros i best most j H; cbn [choose] in H.
     - injection H as <-. left. split; [constructor|]. left. split; [reflexivity|]. intros c [].
-    - destruct (val c v) as [[|]| |] eqn:Ev; cbn [bind negb] in H; try discriminate.
+    - fold (pass c) in H. destruct (pass c) eqn:Ep; cbn [negb] in H.
       2:{ destruct (IH _ _ _ _ H) as [[Hs Hr]|Hst].
-          - left. split; [constructor; [left; exact Ev|exact Hs]|]. apply rec_best_cons_low; [|exact Hr].
+          - left. split; [constructor; [left; exact Ep|exact Hs]|]. apply rec_best_cons_low; [|exact Hr].
             intros [Hv _]. congruence.
-          - right. apply stop_at_cons; [left; exact Ev|exact Hst]. }
+          - right. apply stop_at_cons; [left; exact Ep|exact Hst]. }
+      destruct (val c v) as [[|]| |] eqn:Ev; cbn [bind negb] in H; try discriminate.
+      2:{ destruct (IH _ _ _ _ H) as [[Hs Hr]|Hst].
+          - left. split; [constructor; [right; left; exact Ev|exact Hs]|]. apply rec_best_cons_low; [|exact Hr].
+            intros (_ & Hv & _). congruence.
+          - right. apply stop_at_cons; [right; left; exact Ev|exact Hst]. }
       change (match strip c with
               | SRef n => match lookup e n with Some d0 => strip d0 | None => strip c end
               | d1 => d1 end) with (kind_of e c) in H.
       destruct (kind_of e c) eqn:K;
         try (injection H as <-; right; exists [], c, bs; rewrite K; change (len (@nil schema)) with 0;
-             repeat split; [constructor|exact Ev|]; left; split; [reflexivity|lia]).
+             split; [reflexivity|]; split; [constructor|]; split; [exact Ep|]; split; [exact Ev|]; split; [reflexivity|];
+             left; split; [reflexivity|lia]).
       + (* float *)
         right. exists [], c, bs. rewrite K. change (len (@nil schema)) with 0.
-        repeat split; [constructor|exact Ev|]. right. split; [reflexivity|].
-        destruct (choose_cbf _ _ _ _ _ H) as [[-> Hf]|(p2 & d & q2 & -> & Hp & Hd & ->)].
+        split; [reflexivity|]. split; [constructor|]. split; [exact Ep|]. split; [exact Ev|]. split; [reflexivity|].
+        right. split; [reflexivity|].
+        destruct (choose_cbf _ _ _ _ _ H) as [[-> Hf]|(p2 & d & q2 & -> & Hp & Hpd & Hd & ->)].
         * left. split; [exact Hf|lia].
         * right. exists p2, d, q2. repeat split; try assumption. lia.
       + (* record *)
-        assert (Hvc : vrec c) by (split; [exact Ev|rewrite K; reflexivity]).
+        assert (Hvc : vrec c) by (split; [exact Ep|split; [exact Ev|rewrite K; reflexivity]]).
         assert (Hn : sh c = match v with PDict kv => shared_fields kv fs | _ => 0 end)
           by (unfold shared_of; rewrite K; reflexivity).
         rewrite <- Hn in H.
         destruct (most <? sh c) eqn:Em.
         * destruct (IH _ _ _ _ H) as [[Hs Hr]|Hst].
-          -- left. split; [constructor; [right; exact Hvc|exact Hs]|]. apply rec_best_cons_high; [exact Hvc|lia|exact Hr].
-          -- right. apply stop_at_cons; [right; exact Hvc|exact Hst].
+          -- left. split; [constructor; [right; right; exact Hvc|exact Hs]|]. apply rec_best_cons_high; [exact Hvc|lia|exact Hr].
+          -- right. apply stop_at_cons; [right; right; exact Hvc|exact Hst].
         * destruct (IH _ _ _ _ H) as [[Hs Hr]|Hst].
-          -- left. split; [constructor; [right; exact Hvc|exact Hs]|]. apply rec_best_cons_low; [intros _; lia|exact Hr].
-          -- right. apply stop_at_cons; [right; exact Hvc|exact Hst].
+          -- left. split; [constructor; [right; right; exact Hvc|exact Hs]|]. apply rec_best_cons_low; [intros _; lia|exact Hr].
+          -- right. apply stop_at_cons; [right; right; exact Hvc|exact Hst].
   Qed.
 
   (** corollaries for the top-level call, by position *)
@@ -764,19 +783,26 @@ Section ChooseProofs.
   Lemma is_rec_not_flt s : is_rec s = true -> is_flt s = true -> False.
   Proof. destruct s; discriminate. Qed.
 
-  (* the chosen branch validated -- or is the "double" the search deferred to from an earlier validating "float" *)
+  Ltac mid Hn := rewrite ?Z.add_0_l in Hn; rewrite nthZ_app_mid in Hn; injection Hn as <-.
+  Ltac mid2 Hn pre c0 p2 d q2 :=
+    replace (pre ++ c0 :: p2 ++ d :: q2) with ((pre ++ c0 :: p2) ++ d :: q2) in Hn by (rewrite <- app_assoc; reflexivity);
+    replace (0 + len pre + 1 + len p2) with (len (pre ++ c0 :: p2)) in Hn by (rewrite len_app, len_cons; lia);
+    rewrite nthZ_app_mid in Hn; injection Hn as <-.
+
+  (* the chosen branch is not excluded by a "-type" entry, and it validated -- or is the "double" the search deferred
+     to from an earlier validating "float" *)
   Theorem search_valid bs j : search bs = Ok j -> 0 <= j ->
-    exists c, nthZ bs j = Some c /\
+    exists c, nthZ bs j = Some c /\ pass c = true /\
       (val c v = Ok true \/
        (is_double c = true /\ exists k cf, 0 <= k < j /\ nthZ bs k = Some cf /\ val cf v = Ok true /\ is_flt (kind_of e cf) = true)).
   Proof.
     intros H Hj. destruct (choose_spec _ _ _ _ _ H) as [[_ [[-> _]|(pre & c & post & -> & -> & Hv & _)]]|Hst]; [lia| |].
-    - exists c. rewrite Z.add_0_l. split; [apply nthZ_app_mid|left; apply Hv].
-    - destruct Hst as (pre & c & post & -> & Hp & Hv & Hr & Hcase).
-      destruct Hcase as [[Hf ->]|[Hf [[Hn ->]|(p2 & d & q2 & -> & Hn & Hd & ->)]]].
-      + exists c. rewrite Z.add_0_l. split; [apply nthZ_app_mid|left; exact Hv].
-      + exists c. rewrite Z.add_0_l. split; [apply nthZ_app_mid|left; exact Hv].
-      + exists d. split.
+    - exists c. rewrite Z.add_0_l. split; [apply nthZ_app_mid|]. split; [apply Hv|left; apply Hv].
+    - destruct Hst as (pre & c & post & -> & Hp & Hpc & Hv & Hr & Hcase).
+      destruct Hcase as [[Hf ->]|[Hf [[Hn ->]|(p2 & d & q2 & -> & Hn & Hpd & Hd & ->)]]].
+      + exists c. rewrite Z.add_0_l. split; [apply nthZ_app_mid|]. split; [exact Hpc|left; exact Hv].
+      + exists c. rewrite Z.add_0_l. split; [apply nthZ_app_mid|]. split; [exact Hpc|left; exact Hv].
+      + exists d. split; [|split; [exact Hpd|]].
         * replace (pre ++ c :: p2 ++ d :: q2) with ((pre ++ c :: p2) ++ d :: q2) by (rewrite <- app_assoc; reflexivity).
           replace (0 + len pre + 1 + len p2) with (len (pre ++ c :: p2)) by (rewrite len_app, len_cons; lia). apply nthZ_app_mid.
         * right. split; [exact Hd|]. exists (len pre), c. pose proof (len_nonneg pre). pose proof (len_nonneg p2).
@@ -784,41 +810,35 @@ Section ChooseProofs.
   Qed.
 
   (* among non-record branches the FIRST validating one is taken: if the chosen branch is neither a record nor a
-     "double", every earlier branch failed validation or is a (validating) record *)
+     "double", every earlier branch was excluded by the "-type" entry, failed validation, or is a validating record *)
   Theorem search_first_nonrecord bs j c : search bs = Ok j -> nthZ bs j = Some c ->
     is_rec (kind_of e c) = false -> is_double c = false ->
     val c v = Ok true /\ forall k d, 0 <= k < j -> nthZ bs k = Some d -> skipped d.
   Proof.
     intros H Hn Hr Hd. pose proof (nthZ_range _ _ _ Hn) as Hj.
     destruct (choose_spec _ _ _ _ _ H) as [[_ [[-> _]|(pre & c0 & post & -> & -> & Hv & _)]]|Hst]; [lia| |].
-    - rewrite Z.add_0_l, nthZ_app_mid in Hn. injection Hn as <-. destruct Hv as [_ Hv]. congruence.
-    - destruct Hst as (pre & c0 & post & -> & Hp & Hv & Hr0 & Hcase).
+    - mid Hn. destruct Hv as (_ & _ & Hv). congruence.
+    - destruct Hst as (pre & c0 & post & -> & Hp & Hpc & Hv & Hr0 & Hcase).
       assert (Hfirst : j = 0 + len pre -> val c v = Ok true /\ forall k d, 0 <= k < j -> nthZ (pre ++ c0 :: post) k = Some d -> skipped d).
-      { intros ->. rewrite Z.add_0_l, nthZ_app_mid in Hn. injection Hn as <-. split; [exact Hv|].
+      { intros ->. mid Hn. split; [exact Hv|].
         intros k d Hk Hkd. rewrite Forall_forall in Hp. apply Hp. eapply nthZ_before; [exact Hkd|lia]. }
-      destruct Hcase as [[Hf Hjj]|[Hf [[Hnn Hjj]|(p2 & d & q2 & -> & Hnn & Hdd & ->)]]]; try (apply Hfirst; exact Hjj).
-      exfalso.
-      replace (pre ++ c0 :: p2 ++ d :: q2) with ((pre ++ c0 :: p2) ++ d :: q2) in Hn by (rewrite <- app_assoc; reflexivity).
-      replace (0 + len pre + 1 + len p2) with (len (pre ++ c0 :: p2)) in Hn by (rewrite len_app, len_cons; lia).
-      rewrite nthZ_app_mid in Hn. injection Hn as <-. congruence.
+      destruct Hcase as [[Hf Hjj]|[Hf [[Hnn Hjj]|(p2 & d & q2 & -> & Hnn & Hpd & Hdd & ->)]]]; try (apply Hfirst; exact Hjj).
+      exfalso. mid2 Hn pre c0 p2 d q2. congruence.
   Qed.
 
-  (* "float" is only taken when no "double" branch follows it *)
+  (* "float" is only taken when no (considered) "double" branch follows it *)
   Theorem search_float_last bs j c : search bs = Ok j -> nthZ bs j = Some c -> is_flt (kind_of e c) = true ->
-    forall k d, j < k -> nthZ bs k = Some d -> is_double d = false.
+    forall k d, j < k -> nthZ bs k = Some d -> nodbl d.
   Proof.
     intros H Hn Hf k d Hk Hkd. pose proof (nthZ_range _ _ _ Hn) as Hj.
     destruct (choose_spec _ _ _ _ _ H) as [[_ [[-> _]|(pre & c0 & post & -> & -> & Hv & _)]]|Hst]; [lia| |].
-    - rewrite Z.add_0_l, nthZ_app_mid in Hn. injection Hn as <-. destruct Hv as [_ Hv]. exfalso. eapply is_rec_not_flt; eassumption.
-    - destruct Hst as (pre & c0 & post & -> & Hp & Hv & Hr0 & Hcase).
-      destruct Hcase as [[Hf0 ->]|[Hf0 [[Hnn ->]|(p2 & d0 & q2 & -> & Hnn & Hdd & ->)]]].
-      + rewrite Z.add_0_l, nthZ_app_mid in Hn. injection Hn as <-. congruence.
+    - mid Hn. destruct Hv as (_ & _ & Hv). exfalso. eapply is_rec_not_flt; eassumption.
+    - destruct Hst as (pre & c0 & post & -> & Hp & Hpc & Hv & Hr0 & Hcase).
+      destruct Hcase as [[Hf0 ->]|[Hf0 [[Hnn ->]|(p2 & d0 & q2 & -> & Hnn & Hpd & Hdd & ->)]]].
+      + mid Hn. congruence.
       + rewrite Z.add_0_l in *. rewrite nthZ_app_mid in Hn. injection Hn as <-.
         apply nthZ_after in Hkd; [|lia]. rewrite Forall_forall in Hnn. apply Hnn. eapply nthZ_In. exact Hkd.
-      + exfalso.
-        replace (pre ++ c0 :: p2 ++ d0 :: q2) with ((pre ++ c0 :: p2) ++ d0 :: q2) in Hn by (rewrite <- app_assoc; reflexivity).
-        replace (0 + len pre + 1 + len p2) with (len (pre ++ c0 :: p2)) in Hn by (rewrite len_app, len_cons; lia).
-        rewrite nthZ_app_mid in Hn. injection Hn as <-. rewrite (is_double_kind _ _ Hdd) in Hf. discriminate.
+      + exfalso. mid2 Hn pre c0 p2 d0 q2. rewrite (is_double_kind _ _ Hdd) in Hf. discriminate.
   Qed.
 
   (* a chosen "double" branch is either itself the first validating non-record branch, or the first "double" after
@@ -827,17 +847,16 @@ Section ChooseProofs.
     (val c v = Ok true /\ forall k d, 0 <= k < j -> nthZ bs k = Some d -> skipped d) \/
     (exists k cf, 0 <= k < j /\ nthZ bs k = Some cf /\ val cf v = Ok true /\ is_flt (kind_of e cf) = true /\
        (forall m d, 0 <= m < k -> nthZ bs m = Some d -> skipped d) /\
-       (forall m d, k < m < j -> nthZ bs m = Some d -> is_double d = false)).
+       (forall m d, k < m < j -> nthZ bs m = Some d -> nodbl d)).
   Proof.
     intros H Hn Hd. pose proof (nthZ_range _ _ _ Hn) as Hj.
     destruct (choose_spec _ _ _ _ _ H) as [[_ [[-> _]|(pre & c0 & post & -> & -> & Hv & _)]]|Hst]; [lia| |].
-    - rewrite Z.add_0_l, nthZ_app_mid in Hn. injection Hn as <-. destruct Hv as [_ Hv].
-      rewrite (is_double_kind _ _ Hd) in Hv. discriminate.
-    - destruct Hst as (pre & c0 & post & -> & Hp & Hv & Hr0 & Hcase).
+    - mid Hn. destruct Hv as (_ & _ & Hv). rewrite (is_double_kind _ _ Hd) in Hv. discriminate.
+    - destruct Hst as (pre & c0 & post & -> & Hp & Hpc & Hv & Hr0 & Hcase).
       assert (Hfirst : j = 0 + len pre -> val c v = Ok true /\ forall k d, 0 <= k < j -> nthZ (pre ++ c0 :: post) k = Some d -> skipped d).
-      { intros ->. rewrite Z.add_0_l, nthZ_app_mid in Hn. injection Hn as <-. split; [exact Hv|].
+      { intros ->. mid Hn. split; [exact Hv|].
         intros k d Hk Hkd. rewrite Forall_forall in Hp. apply Hp. eapply nthZ_before; [exact Hkd|lia]. }
-      destruct Hcase as [[Hf Hjj]|[Hf [[Hnn Hjj]|(p2 & d & q2 & -> & Hnn & Hdd & ->)]]]; try (left; apply Hfirst; exact Hjj).
+      destruct Hcase as [[Hf Hjj]|[Hf [[Hnn Hjj]|(p2 & d & q2 & -> & Hnn & Hpd & Hdd & ->)]]]; try (left; apply Hfirst; exact Hjj).
       right. exists (len pre), c0. pose proof (len_nonneg pre). pose proof (len_nonneg p2).
       split; [lia|]. split; [apply nthZ_app_mid|]. split; [exact Hv|]. split; [exact Hf|]. split.
       + intros m d0 Hm Hmd. rewrite Forall_forall in Hp. apply Hp. eapply nthZ_before; [exact Hmd|lia].
@@ -845,8 +864,8 @@ Section ChooseProofs.
         rewrite Forall_forall in Hnn. apply Hnn. eapply nthZ_before; [exact Hmd|lia].
   Qed.
 
-  (* among validating record branches the chosen one shares the most field names with the datum, first on ties
-     (and a record is only chosen when no non-record branch validates) *)
+  (* among (considered) validating record branches the chosen one shares the most field names with the datum, first
+     on ties (and a record is only chosen when no considered non-record branch validates) *)
   Theorem search_most_fields bs j c : search bs = Ok j -> nthZ bs j = Some c -> is_rec (kind_of e c) = true ->
     val c v = Ok true /\ Forall skipped bs /\
     forall k d, nthZ bs k = Some d -> vrec d -> sh d <= sh c /\ (k < j -> sh d < sh c).
@@ -860,26 +879,34 @@ Section ChooseProofs.
       + destruct (Z.eq_dec k (len pre)) as [->|Hne].
         * rewrite Z.sub_diag in Hin. injection Hin as <-. lia.
         * rewrite nthZ_cons_pos in Hin by lia. apply nthZ_In in Hin. specialize (Hpost _ Hin Hvd). lia.
-    - exfalso. destruct Hst as (pre & c0 & post & -> & Hp & Hv & Hr0 & Hcase).
-      destruct Hcase as [[Hf ->]|[Hf [[Hnn ->]|(p2 & d & q2 & -> & Hnn & Hdd & ->)]]].
-      + rewrite Z.add_0_l, nthZ_app_mid in Hn. injection Hn as <-. congruence.
-      + rewrite Z.add_0_l, nthZ_app_mid in Hn. injection Hn as <-. congruence.
-      + replace (pre ++ c0 :: p2 ++ d :: q2) with ((pre ++ c0 :: p2) ++ d :: q2) in Hn by (rewrite <- app_assoc; reflexivity).
-        replace (0 + len pre + 1 + len p2) with (len (pre ++ c0 :: p2)) in Hn by (rewrite len_app, len_cons; lia).
-        rewrite nthZ_app_mid in Hn. injection Hn as <-. rewrite (is_double_kind _ _ Hdd) in Hr. discriminate.
+    - exfalso. destruct Hst as (pre & c0 & post & -> & Hp & Hpc & Hv & Hr0 & Hcase).
+      destruct Hcase as [[Hf ->]|[Hf [[Hnn ->]|(p2 & d & q2 & -> & Hnn & Hpd & Hdd & ->)]]].
+      + mid Hn. congruence.
+      + mid Hn. congruence.
+      + mid2 Hn pre c0 p2 d q2. rewrite (is_double_kind _ _ Hdd) in Hr. discriminate.
   Qed.
 
-  (* no branch validates: the search reports -1 (the writer raises) *)
-  Theorem search_none bs : search bs = Ok (-1) -> Forall (fun c => val c v = Ok false) bs.
+  (* no considered branch validates: the search reports -1 (the writer raises) *)
+  Theorem search_none bs : search bs = Ok (-1) -> Forall (fun c => pass c = false \/ val c v = Ok false) bs.
   Proof.
     intros H. destruct (choose_spec _ _ _ _ _ H) as [[Hsk [[_ Hall]|(pre & c0 & post & -> & Hj & _)]]|Hst].
-    - apply Forall_forall. intros c Hc. rewrite Forall_forall in Hsk. destruct (Hsk c Hc) as [Hf|Hv]; [exact Hf|].
+    - apply Forall_forall. intros c Hc. rewrite Forall_forall in Hsk. destruct (Hsk c Hc) as [Hf|[Hf|Hv]]; [left; exact Hf|right; exact Hf|].
       specialize (Hall c Hc Hv). exfalso. unfold shared_of in Hall. clear - Hall.
       destruct (kind_of e c); try lia. destruct v; try lia. unfold shared_fields in Hall.
       pose proof (len_nonneg (filter (key_in kv) (dedup (field_names fs)))). lia.
     - pose proof (len_nonneg pre). lia.
-    - destruct Hst as (pre & c0 & post & -> & _ & _ & _ & Hcase). pose proof (len_nonneg pre).
-      destruct Hcase as [[_ Hj]|[_ [[_ Hj]|(p2 & d & q2 & _ & _ & _ & Hj)]]]; try lia. pose proof (len_nonneg p2). lia.
+    - destruct Hst as (pre & c0 & post & -> & _ & _ & _ & _ & Hcase). pose proof (len_nonneg pre).
+      destruct Hcase as [[_ Hj]|[_ [[_ Hj]|(p2 & d & q2 & _ & _ & _ & _ & Hj)]]]; try lia. pose proof (len_nonneg p2). lia.
+  Qed.
+
+  (* a "-type" entry selects exactly a record branch of that full name *)
+  Lemma pass_hint c h : type_hint v = Some h -> pass c = true -> exists n al fs, kind_of e c = SRecord n al fs /\ h = PStr n.
+  Proof.
+    unfold pass, hint_pass. intros -> H.
+    change (match strip c with
+            | SRef n => match lookup e n with Some d0 => strip d0 | None => strip c end
+            | d1 => d1 end) with (kind_of e c) in H.
+    destruct (kind_of e c); try discriminate. destruct h; try discriminate. apply beqb_eq in H. subst. eauto.
   Qed.
 End ChooseProofs.
 
@@ -904,7 +931,7 @@ Proof.
   exists b. split; [exact Hn|]. split; [exact Hel|].
   assert (Hv : validate f o e b (Some v) = Ok true).
   { pose proof (nthZ_range _ _ _ Hn) as Hi.
-    destruct (search_valid _ e v bs i Hc ltac:(lia)) as (c & Hnc & Hcase). rewrite Hn in Hnc. injection Hnc as <-.
+    destruct (search_valid _ e v bs i Hc ltac:(lia)) as (c & Hnc & _ & Hcase). rewrite Hn in Hnc. injection Hnc as <-.
     destruct Hcase as [Hv|[Hd _]]; [exact Hv|]. eapply double_validates; eassumption. }
   split; [exact Hv|]. exists f. exact (validate_sound _ _ _ _ _ Hv).
 Qed.
@@ -989,47 +1016,62 @@ Proof.
   exfalso. apply Hnh. eexists. split; [reflexivity|exact Hd].
 Qed.
 
+Definition passed_over f o e v (d : schema) : Prop :=     (* excluded by "-type", failed validation, or a validating record *)
+  hint_pass e v d = false \/ validate f o e d (Some v) = Ok false \/
+  (hint_pass e v d = true /\ validate f o e d (Some v) = Ok true /\ is_rec (kind_of e d) = true).
+
 Theorem union_first_nonrecord f o e bs v i a c :
   elab (S f) o e (SUnion bs) v = WOk (AUnion i a) -> ~ hinted_by o v -> nthZ bs i = Some c ->
   is_rec (kind_of e c) = false -> is_double c = false ->
   validate f o e c (Some v) = Ok true /\
-  forall k d, 0 <= k < i -> nthZ bs k = Some d ->
-    validate f o e d (Some v) = Ok false \/ (validate f o e d (Some v) = Ok true /\ is_rec (kind_of e d) = true).
+  forall k d, 0 <= k < i -> nthZ bs k = Some d -> passed_over f o e v d.
 Proof. intros H Hnh. exact (search_first_nonrecord (vval f o e) e v bs i c (union_search_of_elab _ _ _ _ _ _ _ H Hnh)). Qed.
 
 Theorem union_float_last f o e bs v i a c :
   elab (S f) o e (SUnion bs) v = WOk (AUnion i a) -> ~ hinted_by o v -> nthZ bs i = Some c ->
-  is_flt (kind_of e c) = true -> forall k d, i < k -> nthZ bs k = Some d -> is_double d = false.
+  is_flt (kind_of e c) = true -> forall k d, i < k -> nthZ bs k = Some d -> hint_pass e v d = false \/ is_double d = false.
 Proof. intros H Hnh. exact (search_float_last (vval f o e) e v bs i c (union_search_of_elab _ _ _ _ _ _ _ H Hnh)). Qed.
 
 Theorem union_double f o e bs v i a c :
   elab (S f) o e (SUnion bs) v = WOk (AUnion i a) -> ~ hinted_by o v -> nthZ bs i = Some c -> is_double c = true ->
   (validate f o e c (Some v) = Ok true /\
-   forall k d, 0 <= k < i -> nthZ bs k = Some d ->
-     validate f o e d (Some v) = Ok false \/ (validate f o e d (Some v) = Ok true /\ is_rec (kind_of e d) = true)) \/
+   forall k d, 0 <= k < i -> nthZ bs k = Some d -> passed_over f o e v d) \/
   (exists k cf, 0 <= k < i /\ nthZ bs k = Some cf /\ validate f o e cf (Some v) = Ok true /\ is_flt (kind_of e cf) = true /\
-     (forall m d, 0 <= m < k -> nthZ bs m = Some d ->
-        validate f o e d (Some v) = Ok false \/ (validate f o e d (Some v) = Ok true /\ is_rec (kind_of e d) = true)) /\
-     (forall m d, k < m < i -> nthZ bs m = Some d -> is_double d = false)).
+     (forall m d, 0 <= m < k -> nthZ bs m = Some d -> passed_over f o e v d) /\
+     (forall m d, k < m < i -> nthZ bs m = Some d -> hint_pass e v d = false \/ is_double d = false)).
 Proof. intros H Hnh. exact (search_double (vval f o e) e v bs i c (union_search_of_elab _ _ _ _ _ _ _ H Hnh)). Qed.
 
 Theorem union_most_fields f o e bs v i a c :
   elab (S f) o e (SUnion bs) v = WOk (AUnion i a) -> ~ hinted_by o v -> nthZ bs i = Some c ->
   is_rec (kind_of e c) = true ->
   validate f o e c (Some v) = Ok true /\
-  Forall (fun d => validate f o e d (Some v) = Ok false \/ (validate f o e d (Some v) = Ok true /\ is_rec (kind_of e d) = true)) bs /\
-  forall k d, nthZ bs k = Some d -> validate f o e d (Some v) = Ok true /\ is_rec (kind_of e d) = true ->
+  Forall (passed_over f o e v) bs /\
+  forall k d, nthZ bs k = Some d ->
+    hint_pass e v d = true /\ validate f o e d (Some v) = Ok true /\ is_rec (kind_of e d) = true ->
     shared_of e v d <= shared_of e v c /\ (k < i -> shared_of e v d < shared_of e v c).
 Proof. intros H Hnh. exact (search_most_fields (vval f o e) e v bs i c (union_search_of_elab _ _ _ _ _ _ _ H Hnh)). Qed.
 
-(* when no branch validates the writer raises *)
+(* a "-type" entry (other than None) in the datum: the branch written is a record of exactly that full name *)
+Theorem union_type_hint f o e bs v i a c h :
+  elab (S f) o e (SUnion bs) v = WOk (AUnion i a) -> ~ hinted_by o v -> type_hint v = Some h -> nthZ bs i = Some c ->
+  exists n al fs, kind_of e c = SRecord n al fs /\ h = PStr n.
+Proof.
+  intros H Hnh Hh Hn. pose proof (union_search_of_elab _ _ _ _ _ _ _ H Hnh) as Hs. pose proof (nthZ_range _ _ _ Hn) as Hi.
+  destruct (search_valid _ e v bs i Hs ltac:(lia)) as (c' & Hnc & Hp & _). rewrite Hn in Hnc. injection Hnc as <-.
+  eapply pass_hint; eassumption.
+Qed.
+
+(* when no branch is both considered and validating the writer raises; in particular when a "-type" entry names no
+   record branch of the union *)
 Theorem union_no_branch f o e bs v :
-  ~ hinted_by o v -> Forall (fun c => validate f o e c (Some v) = Ok false) bs -> elab (S f) o e (SUnion bs) v = WErr.
+  ~ hinted_by o v -> Forall (fun c => hint_pass e v c = false \/ validate f o e c (Some v) = Ok false) bs ->
+  elab (S f) o e (SUnion bs) v = WErr.
 Proof.
   intros Hnh Hall.
   assert (Hc : forall i best most, choose (vval f o e) e v bs i best most false = Ok best).
   { induction Hall as [|c bs Hc _ IH]; intros i best most; cbn [choose]; [reflexivity|].
-    unfold vval at 1. rewrite Hc. cbn [bind negb]. apply IH. }
+    destruct (hint_pass e v c) eqn:Ep; cbn [negb]; [|apply IH].
+    destruct Hc as [Hc|Hc]; [discriminate|]. unfold vval at 1. rewrite Hc. cbn [bind negb]. apply IH. }
   assert (Hs : union_search f o e bs v = WErr).
   { unfold union_search. fold (vval f o e). rewrite Hc. reflexivity. }
   rewrite elab_union_eq. destruct v; try exact Hs. destruct (disable_tuple o) eqn:Ed; [exact Hs|].
@@ -1114,6 +1156,7 @@ Section ChooseTotal.
   Proof.
     induction bs as [|c bs IH]; intros Hv i best most cbf; cbn [choose]; [reflexivity|].
     assert (IH' := IH (fun c0 H0 => Hv c0 (or_intror H0))).
+    destruct (hint_pass e v c); cbn [negb]; [|apply IH'].
     destruct cbf; [destruct (is_double c); [reflexivity|apply IH']|].
     rewrite (Hv c (or_introl eq_refl)). destruct (val2 c v) as [[|]| |]; cbn [bind negb]; try reflexivity; [|apply IH'].
     destruct (match strip c with SRef n => match lookup e n with Some d => strip d | None => strip c end | d => d end);
@@ -1138,6 +1181,7 @@ Section ChooseTotal2.
       assert (Hhere : forall most' cbf', exists j, choose val1 e v bs (i + 1) i most' cbf' = Ok j /\
                         (j = best \/ i <= j < i + (1 + len bs))).
       { intros m' c'. destruct (IH' (i + 1) i m' c') as (j & Hj & Hr). exists j. split; [exact Hj|]. lia. }
+      destruct (hint_pass e v c); cbn [negb]; [|apply Hstep].
       destruct cbf.
       + destruct (is_double c); [exists i; split; [reflexivity|lia]|apply Hstep].
       + destruct (Hv c (or_introl eq_refl)) as [b Hb]. rewrite Hb. cbn [bind]. destruct b; cbn [negb]; [|apply Hstep].
@@ -1246,29 +1290,31 @@ Proof.
     destruct (Hf0 f' ltac:(lia)) as [r Hr]. exists (AMap r). cbn [elab]. rewrite Hr. reflexivity.
   - (* union *)
     assert (Hsearch : any_branch (validate f o e) v bs = Ok true ->
-              Forall (fun c => (exists b, validate n o e c (Some v) = Ok b) /\ wdom n o e c v) bs ->
+              Forall (fun c => (exists b, validate n o e c (Some v) = Ok b /\ (b = true -> hint_pass e v c = true)) /\ wdom n o e c v) bs ->
               exists f0, forall f', (f0 <= f')%nat -> exists a, union_search f' o e bs v = WOk a).
     { intros Ha Hall. rewrite Forall_forall in Hall.
       (* the answers of the validator are the same for every fuel >= n *)
       assert (Hsame : forall f', (n <= f')%nat -> forall c, In c bs -> vval f' o e c v = vval n o e c v).
-      { intros f' Hf c Hc. destruct (Hall c Hc) as [[b Hb] _]. unfold vval. rewrite Hb.
+      { intros f' Hf c Hc. destruct (Hall c Hc) as [(b & Hb & _) _]. unfold vval. rewrite Hb.
         eapply validate_fuel_mono; [exact Hf|exact Hb]. }
-      destruct (choose_total (vval n o e) e v bs (fun c Hc => proj1 (Hall c Hc)) 0 (-1) (-1) false) as (j & Hj & Hr).
+      assert (Hans : forall c, In c bs -> exists b, vval n o e c v = Ok b).
+      { intros c Hc. destruct (Hall c Hc) as [(b & Hb & _) _]. exists b. exact Hb. }
+      destruct (choose_total (vval n o e) e v bs Hans 0 (-1) (-1) false) as (j & Hj & Hr).
       (* some branch validates, so the result is not -1 *)
       apply any_branch_true in Ha. destruct Ha as (pre & c0 & post & Hbs & _ & Hc0).
       assert (Hin0 : In c0 bs) by (rewrite Hbs; apply in_or_app; right; left; reflexivity).
-      assert (Hc0n : validate n o e c0 (Some v) = Ok true).
-      { destruct (Hall c0 Hin0) as [[b Hb] _]. rewrite Hb. f_equal.
+      assert (Hc0n : validate n o e c0 (Some v) = Ok true /\ hint_pass e v c0 = true).
+      { destruct (Hall c0 Hin0) as [(b & Hb & Hpass) _]. assert (b = true); [|subst b; split; [exact Hb|apply Hpass; reflexivity]].
         pose proof (validate_fuel_mono f (Nat.max f n) o e (Nat.le_max_l _ _) _ _ _ Hc0) as H1.
         pose proof (validate_fuel_mono n (Nat.max f n) o e (Nat.le_max_r _ _) _ _ _ Hb) as H2. congruence. }
       assert (Hj0 : 0 <= j < len bs).
       { destruct Hr as [->|Hr]; [|lia]. exfalso. apply search_none in Hj. rewrite Forall_forall in Hj.
-        specialize (Hj c0 Hin0). unfold vval in Hj. congruence. }
+        destruct Hc0n as [Hc0n Hp0]. destruct (Hj c0 Hin0) as [Hj0|Hj0]; unfold pass, vval in Hj0; congruence. }
       destruct (nthZ_some bs j Hj0) as [c Hc]. assert (Hinc : In c bs) by (eapply nthZ_In; exact Hc).
       assert (Hcv : validate n o e c (Some v) = Ok true).
-      { destruct (search_valid _ _ _ _ _ Hj ltac:(lia)) as (c' & Hc' & Hcase). rewrite Hc in Hc'. injection Hc' as <-.
+      { destruct (search_valid _ _ _ _ _ Hj ltac:(lia)) as (c' & Hc' & _ & Hcase). rewrite Hc in Hc'. injection Hc' as <-.
         destruct Hcase as [Hok|(Hdbl & k & cf & _ & _ & Hcf & Hkf)]; [exact Hok|].
-        destruct (Hall c Hinc) as [[b Hb] _]. rewrite Hb. f_equal.
+        destruct (Hall c Hinc) as [(b & Hb & _) _]. rewrite Hb. f_equal.
         eapply double_accepts_numbers; [exact Hdbl| |exact Hb]. eapply number_of_float_kind; [exact Hcf|exact Hkf]. }
       destruct (IH o e c v n Ho (proj2 (Hall c Hinc)) Hcv) as [fc Hfc].
       exists (Nat.max n fc). intros f' Hf. destruct (Hfc f' ltac:(lia)) as [a Ha'].
@@ -1359,7 +1405,8 @@ Proof.
   intros Hs H. cbn [wdom]. intros l' Hl. apply as_sequence_items in Hl. rewrite Hs in Hl. injection Hl as <-. exact H.
 Qed.
 Lemma wdom_union_plain n o e bs v : (forall l, v <> PTuple l) ->
-  Forall (fun c => (exists b, validate n o e c (Some v) = Ok b) /\ wdom n o e c v) bs -> wdom (S n) o e (SUnion bs) v.
+  Forall (fun c => (exists b, validate n o e c (Some v) = Ok b /\ (b = true -> hint_pass e v c = true)) /\ wdom n o e c v) bs ->
+  wdom (S n) o e (SUnion bs) v.
 Proof. intros Hn H. cbn [wdom]. destruct v; try exact H. exfalso. eapply Hn. reflexivity. Qed.
 Lemma wdom_union_hint n o e bs nm x b : disable_tuple o = false ->
   first_named nm bs = Some b -> wdom n o e b x -> wdom (S n) o e (SUnion bs) (PTuple [PStr nm; x]).
@@ -1406,4 +1453,30 @@ Proof.
   pose proof (nthZ_range _ _ _ Hn) as Hi.
   rewrite (find_named_first (branch_name b) bs 0 i b); [|rewrite Z.sub_0_r; exact Hn|reflexivity|lia|rewrite Z.sub_0_r; exact Hfirst].
   unfold union_go. rewrite Hn, Hel. reflexivity.
+Qed.
+
+(** *** write_record's _accepts_null agrees with validate: a type that accepts None (so that validate lets the field be
+    absent without default) is one the writer lets be absent *)
+Lemma none_rejected_by_named o e s : match s with SRecord _ _ _ | SEnum _ _ _ _ | SFixed _ _ _ => True | _ => False end ->
+  forall f, validate f o e s (Some PNone) <> Ok true.
+Proof. intros Hs [|f] H; [discriminate|]. destruct s; try contradiction; cbn [validate] in H; discriminate. Qed.
+
+Theorem none_nullok : forall f o e t, named_env e = true -> plain_type t = true ->
+  validate f o e t (Some PNone) = Ok true -> nullok t = true.
+Proof.
+  induction f as [|f IH]; intros o e t He Hp H; [discriminate|].
+  destruct t; try reflexivity; try (cbn [validate] in H; discriminate).
+  - (* union *)
+    cbn [validate] in H. apply any_branch_true in H. destruct H as (pre & c & post & -> & _ & Hc).
+    cbn [plain_type] in Hp. rewrite forallb_forall in Hp. cbn [nullok]. apply existsb_exists. exists c.
+    assert (Hin : In c (pre ++ c :: post)) by (apply in_or_app; right; left; reflexivity).
+    split; [exact Hin|]. eapply IH; [exact He|apply Hp; exact Hin|exact Hc].
+  - (* reference: named_schemas holds named types, which never accept None *)
+    cbn [validate] in H. destruct (lookup e n) as [s'|] eqn:El; [|discriminate]. exfalso.
+    destruct (lookup_in _ _ _ El) as [k Hin]. unfold named_env in He. rewrite forallb_forall in He. specialize (He _ Hin).
+    cbn [snd] in He. destruct (validate_strip _ _ _ _ _ _ H) as (f1 & H1).
+    eapply (none_rejected_by_named o e (strip s')); [|exact H1]. destruct (strip s'); try discriminate; exact I.
+  - (* dict form *)
+    cbn [validate] in H. cbn [nullok plain_type] in *. destruct t; try discriminate Hp; try reflexivity;
+      (destruct f as [|f']; [discriminate|]; cbn [validate] in H; discriminate).
 Qed.
